@@ -432,8 +432,54 @@ func runC14(c *Ctx) {
 		}
 		c.Floor("O10", "DOM whole-GPU effects in "+name, n, 2)
 	}
+	runC14GlobalGuards(c, "O11")
 
 	// O6: status lattice
 	runStatusConsts(c, "O6")
 	_ = types.Typ
+}
+
+// runC14GlobalGuards (O11): the ±1 whole GPU that a sharer's add / remove applies to NodeInfo.Idle must be undone by
+// the opposite call. That holds only if the decision is a function of the GROUP's own counters (which the opposite
+// call restores). A guard that also reads node-wide totals — Idle + used GPUs against the GPU count — is evaluated
+// in a different node state by the inverse (other pods were nominated or evicted in between) and add / remove stop
+// being inverses: Idle drifts by one GPU after a rollback (finding F24).
+func runC14GlobalGuards(c *Ctx, ob string) {
+	p := c.P
+	n := 0
+	for _, name := range []string{"addSharedTaskResourcesPerPodGroup", "removeSharedTaskResourcesPerPodGroup"} {
+		fn := p.Func(pkgNodeInfo, "NodeInfo", name)
+		if fn == nil {
+			c.Undec(ob, "ANCHOR", name, 0, "not found")
+			continue
+		}
+		for _, h := range p.deepFind(fn, func(in ssa.Instruction) bool {
+			cc, ok := in.(ssa.CallInstruction)
+			if !ok || calleeOf(cc) == nil || (calleeOf(cc).Name() != "SubGPUs" && calleeOf(cc).Name() != "AddGPUs") {
+				return false
+			}
+			return termOf(cc.Common().Args[0]).lastField() == "Idle"
+		}, 1) {
+			n++
+			fs := c.Fx.factsAtDeep(h)
+			arm := "default"
+			for _, f := range fs.M {
+				if f.Pol && f.T.Op == "bin" && f.T.Name == "==" && len(f.T.Args) == 2 && f.T.Args[0].lastField() == "Status" && strings.HasPrefix(f.T.Args[1].String(), "const:") {
+					arm = "status " + strings.TrimPrefix(f.T.Args[1].String(), "const:")
+					if v, ok := p.ConstInt(pkgPodStatus, "Releasing"); ok && f.T.Args[1].String() == fmt.Sprintf("const:%d", v) {
+						arm = "Releasing"
+					}
+				}
+			}
+			d, global := hasFact(fs, func(f Fact) bool {
+				return f.T.contains(func(x *Term) bool {
+					return x.Op == "call" && x.Fn != nil && (x.Fn.Name() == "GetNumberOfGPUsInNode" || x.Fn.Name() == "getNumberOfUsedGPUs" || x.Fn.Name() == "getNumberOfUsedSharedGPUs")
+				})
+			})
+			cc := h.In.(ssa.CallInstruction)
+			c.Check(!global, ob, "DOM", fmt.Sprintf("%s: Idle.%s(1) in the arm for %s is decided by the group's own counters only", funcKey(fn), calleeOf(cc).Name(), arm), instrPos(h.In), "no node-wide total in the guard",
+				"the whole GPU is moved in or out of Idle under a guard that reads node-wide totals ("+trunc(d, 160)+"): the opposite call evaluates it in another node state, so add and remove are not inverses and Idle drifts by one GPU when a scenario is undone")
+		}
+	}
+	c.Floor(ob, "DOM Idle effects of shared-GPU add/remove", n, 4)
 }
